@@ -18,9 +18,13 @@ type DatabaseSchema struct {
 	allTablesRoot *bool
 }
 
-// UUIDColumn is a static column that represents the _uuid column, common to all tables
+var uuidColumnMutable = false
+
+// UUIDColumn is a static column that represents the _uuid column, common to all tables.
+// The _uuid of a row never changes (RFC 7047 3.2): the column is not mutable.
 var UUIDColumn = ColumnSchema{
-	Type: TypeUUID,
+	Type:    TypeUUID,
+	mutable: &uuidColumnMutable,
 }
 
 // Table returns a TableSchema Schema for a given table and column name
